@@ -489,6 +489,7 @@ func (fr *frame) step(in ssa.Instruction, st *state) bool {
 		base := fr.addrOf(x.X, st)
 		pt := unalias(x.X.Type()).Underlying().(*types.Pointer)
 		su := structOf(pt.Elem())
+		fr.guardFieldAccess(x.X, pt.Elem(), su.Field(x.Field).Name(), st, fr.pos(x.Pos()))
 		fr.addrs[x] = &addr{kind: aField, base: base, field: x.Field, typ: su.Field(x.Field).Type()}
 	case *ssa.IndexAddr:
 		fr.doIndexAddr(x, st)
@@ -772,6 +773,12 @@ func (fr *frame) doUnOp(x *ssa.UnOp, st *state) {
 	vc := fr.vc
 	switch x.Op {
 	case token.MUL:
+		if pt, ok := unalias(x.X.Type()).Underlying().(*types.Pointer); ok {
+			if structOf(pt.Elem()) != nil {
+				// copying a whole struct reads every field of it (value-receiver method calls do this)
+				fr.guardFieldAccess(x.X, pt.Elem(), "*", st, fr.pos(x.Pos()))
+			}
+		}
 		a := fr.addrOf(x.X, st)
 		v := fr.load(a, st)
 		v.GT = x.Type()
@@ -1211,4 +1218,64 @@ func (fr *frame) assumeStaticFresh(v ssa.Value, t T, st *state) {
 	case "Int":
 		fr.vc.assume(st.reach, fmt.Sprintf("(or (>= %s %s) (= %s 0))", t.S, fr.next0, t.S))
 	}
+}
+
+// guardFieldAccess: "guardedfields <lock>: names" — taking the address of a named field of the lock's owner (every
+// read and write goes through it), or copying the whole owner struct (field == "*"), needs the lock.
+func (fr *frame) guardFieldAccess(ptr ssa.Value, owner types.Type, field string, st *state, pos string) {
+	root := fr
+	for root.caller != nil {
+		root = root.caller
+	}
+	fc := root.fc
+	if fc == nil || len(fc.GuardFields) == 0 {
+		return
+	}
+	// the owner type is the struct the lock expression's base points to
+	lock, err := parseSpec(fc.GuardLock)
+	if err != nil {
+		return
+	}
+	sel, ok := lock.(*ESel)
+	if !ok {
+		return
+	}
+	bid, ok := sel.X.(*EIdent)
+	if !ok {
+		return
+	}
+	bv, ok := root.params[bid.Name]
+	if !ok || bv.GT == nil {
+		return
+	}
+	bpt, ok := unalias(bv.GT).Underlying().(*types.Pointer)
+	if !ok || !types.Identical(unalias(bpt.Elem()), unalias(owner)) {
+		return
+	}
+	// only accesses through that very pointer (the receiver), in this function or an inlined callee
+	if pv, ok := fr.vals[ptr]; !ok || pv.S != bv.S {
+		if fr == root {
+			return
+		}
+	}
+	hit := field == "*"
+	for _, n := range fc.GuardFields {
+		if n == field {
+			hit = true
+		}
+	}
+	if !hit {
+		return
+	}
+	save := fr.fc
+	held := func() string {
+		e, _ := parseSpec("held(" + fc.GuardLock + ")")
+		return root.specEnv(st, nil).evalBool(e)
+	}()
+	_ = save
+	label := field
+	if field == "*" {
+		label = "struct-copy"
+	}
+	fr.vc.oblige("guard.field["+label+"]", "", root.name, st.reach, held, pos)
 }
